@@ -57,6 +57,54 @@ def check_set_probe(prog, res, rule):
     return n
 
 
+def check_duplicate_decision(prog, res, rule):
+    """coupon list / coupon set: the scan leaves its loop without storing only for a coupon that is already present -- the
+    whole 32-bit coupon, not just its 26-bit slot part: two coupons for the same slot with different values must both be kept
+    (the register is their maximum).  By value over the loop-exit facts: stored == new leaves without storing; stored and new
+    agreeing on the low 26 bits only must not."""
+    n = 0
+    for owner in ("hll::hash_set::HashSet", "hll::list::List"):
+        for f in C.fns_of(prog, owner):
+            if f.promoted or f.argc != 2 or f.local_ty(2) != "u32" or not f.local_ty(1).startswith("&mut"):
+                continue
+            s = Sym(prog, f)
+            pname = f.local_name(2)
+            for h, body in s.loops():
+                for x in sorted(body):
+                    for y in f.succs(x):
+                        if y in body or f.blocks[y].cleanup:
+                            continue
+                        facts = s.cmp_facts_at(y)
+                        lv = {}
+                        for t in facts:
+                            for z in t[1:]:
+                                if isinstance(z, tuple):
+                                    lv.update(formula.top_leaves(z))
+                        stored = [k for k, v in lv.items() if v[0] == "index" or (v[0] == "call" and v[1].rsplit("::", 1)[-1] in ("next", "index", "index_mut"))]
+                        if pname not in lv or len(stored) != 1:
+                            continue
+                        fp = C.facts_pred(s, y)
+
+                        def holds(st_v, new_v):
+                            env = {"@prog": prog, "@fn:eq": lambda a, b: int(a == b), "@fn:ne": lambda a, b: int(a != b)}
+                            for k in lv:
+                                env[k] = 3
+                            env[stored[0]] = st_v
+                            env[pname] = new_v
+                            return fp(env)
+                        new_v = (9 << 26) | 0x123457
+                        same, n_same = holds(new_v, new_v)
+                        if not (same and n_same):
+                            continue            # not the exit taken for a coupon that is already present
+                        n += 1
+                        other, n_o = holds((5 << 26) | 0x123457, new_v)
+                        verdict = None if not n_o else (not other)
+                        res.tri(verdict, rule, "%s|%s|duplicate" % (rule, f.id),
+                                "%s treats a stored coupon as a duplicate of a new one that has the same 26-bit slot part but a different value: the new "
+                                "value is dropped, so the register can end below the per-slot maximum" % f.id, f.id)
+    return n
+
+
 def run(prog, ctx):
     res = Result("C02")
     upd = C.pub_fn(prog, "hll::sketch::HllSketch", "update")
@@ -454,6 +502,7 @@ def run(prog, ctx):
     C.pairing_rule(res, prog, "C02.Q", "hll::aux_map::AuxMap", "entries", "count", 2)
     res.rule("C02.Q", n_q, 3, "open-addressing probe loops in hll::")
     res.rule("C02.Q2", check_set_probe(prog, res, "C02.Q2"), 1, "probe formula of the coupon hash set")
+    res.rule("C02.Q3", check_duplicate_decision(prog, res, "C02.Q3"), 2, "duplicate decision of the coupon list and set")
 
     # ---------------- C02.D : Mode dispatch completeness
     n_d = 0
